@@ -247,3 +247,13 @@ Proof. exact sd_stream_pow2. Qed.
 Theorem C14_sd_pow2_binary64 : forall k p s xs xs', sd_new FOps p = Ok s -> Forall2 (scaled k) xs xs' -> sd_run_ok k s xs ->
   Forall2 (scaled k) (res_outs (sd_next FOps) s xs) (res_outs (sd_next FOps) s xs').
 Proof. exact sd_pow2_covariant. Qed.
+
+(* ... and for whole streams of BollingerBands: all three bands (the middle band is StandardDeviation's running mean, the half-width is
+   SD * multiplier with a dimensionless multiplier) *)
+From TA Require Import Proofs.FloatScaleBb.
+Theorem C14_bb_stream_pow2_binary64 : forall k xs xs' s s', rel_bb k s s' -> Forall2 (scaled k) xs xs' -> bb_run_ok k s xs ->
+  Forall2 (Forall2 (scaled k)) (res_outs (bb_next FOps) s xs) (res_outs (bb_next FOps) s' xs').
+Proof. exact bb_stream_pow2. Qed.
+Theorem C14_bb_pow2_binary64 : forall k p mu s xs xs', bb_new FOps p mu = Ok s -> Forall2 (scaled k) xs xs' -> bb_run_ok k s xs ->
+  Forall2 (Forall2 (scaled k)) (res_outs (bb_next FOps) s xs) (res_outs (bb_next FOps) s xs').
+Proof. exact bb_pow2_covariant. Qed.
